@@ -124,7 +124,7 @@ func aMakePod(sweep int) *aPod {
 	}
 	zoneShape := 0
 	if sweep != 1 {
-		zoneShape = verifrt.Choice("pod.zone", 0, 4)
+		zoneShape = verifrt.Choice("pod.zone", 0, 6)
 	}
 	switch zoneShape {
 	case 1:
@@ -140,6 +140,14 @@ func aMakePod(sweep int) *aPod {
 	case 4:
 		required(term(corev1.NodeSelectorOpIn, "zone-2", "zone-1"))
 		a.zoneOK, a.firstTerm = in("zone-1", "zone-2"), in("zone-1", "zone-2")
+	case 5: // node selector and a wider required affinity on the same key: both must hold
+		p.Spec.NodeSelector = map[string]string{corev1.LabelTopologyZone: "zone-1"}
+		required(term(corev1.NodeSelectorOpIn, "zone-2", "zone-1"))
+		a.zoneOK, a.firstTerm = in("zone-1"), in("zone-1")
+	case 6: // node selector and a contradicting required affinity: no zone satisfies the pod
+		p.Spec.NodeSelector = map[string]string{corev1.LabelTopologyZone: "zone-1"}
+		required(term(corev1.NodeSelectorOpIn, "zone-2"))
+		a.zoneOK, a.firstTerm = in(), in()
 	}
 	if sweep != 0 && verifrt.Choice("pod.custom", 0, 1) == 1 {
 		if p.Spec.NodeSelector == nil {
